@@ -61,32 +61,33 @@ theorem stops_at_first_outside_or_limit (l r : Int) (ml : Option Nat) (stream op
 
 example : feed 0 8 (some 3) [] [3, 4, 5, 9] 0 = some ([3, 4, 5], false, 3) := by decide
 
-/-- **Success rule — exactly what the code does.** Success iff the frame that ended propagation is outside the
-    interfaces AND the path length is not `maxlen`: a crossing on the very last admissible frame is reported
-    as NOT successful (the `length == maxlen` block of `add_to_path` overrides the crossing). -/
-theorem success_iff_outside_and_not_at_limit (l r : Int) (ml : Option Nat) (stream ops0 ops : List Int)
+/-- **Success rule, full strength** (after the repair f955162 of `add_to_path`): success iff the frame that
+    ended propagation is outside the interfaces — also when it is the last admissible frame.  Propagation that
+    ends at the length limit (or because the stream ended) with an inside frame reports no success. -/
+theorem success_iff_outside (l r : Int) (ml : Option Nat) (stream ops0 ops : List Int)
     (succ : Bool) (k : Nat) (hfit : ∀ m, ml = some m → ops0.length < m)
     (h : feed l r ml ops0 stream 0 = some (ops, succ, k)) :
-    succ = true ↔ ∃ x, 0 < k ∧ stream[k - 1]? = some x ∧ (x < l ∨ x > r) ∧ ml ≠ some (ops0.length + k) := by
+    succ = true ↔ ∃ x, 0 < k ∧ stream[k - 1]? = some x ∧ (x < l ∨ x > r) := by
   obtain ⟨n, hk, hn, hops, hin, hend⟩ := feed_spec l r ml stream ops0 0 ops succ k hfit h
   have : k = n := by omega
   subst this
   rcases hend with ⟨h1, h2, h3⟩ | ⟨x, h1, h2, _, h4⟩
   · constructor
     · intro hs; rw [h2] at hs; cases hs
-    · rintro ⟨x, hpos, hx, hout, _⟩
+    · rintro ⟨x, hpos, hx, hout⟩
       have := h3 _ x hx
       omega
   · constructor
-    · intro hs; exact ⟨x, h1, h2, (h4.1 hs).1, (h4.1 hs).2⟩
-    · rintro ⟨y, _, hy, hout, hne⟩
+    · intro hs; exact ⟨x, h1, h2, h4.1 hs⟩
+    · rintro ⟨y, _, hy, hout⟩
       rw [h2] at hy
       cases hy
-      exact h4.2 ⟨hout, hne⟩
+      exact h4.2 hout
 
-/-- the override, concretely: the crossing value 9 arrives as frame number `maxlen = 2` → no success -/
-example : feed 0 8 (some 2) [] [1, 9] 0 = some ([1, 9], false, 2) ∧
-    feed 0 8 (some 3) [] [1, 9] 0 = some ([1, 9], true, 2) := by decide
+/-- the crossing value 9 arrives as frame number `maxlen = 2`: stop AND success; an inside value at the
+    limit: stop without success -/
+example : feed 0 8 (some 2) [] [1, 9] 0 = some ([1, 9], true, 2) ∧
+    feed 0 8 (some 2) [] [1, 5, 9] 0 = some ([1, 5], false, 2) := by decide
 
 /-! ### LAMMPS and CP2K: every schedule -/
 
